@@ -58,7 +58,14 @@ fn mutate(rng: &mut Rng, g: &ValueGen, v: &Value) -> Value {
 		Value::Array(a) if !a.is_empty() => {
 			let mut c = a.clone();
 			let i = rng.below(c.len());
-			if rng.chance(1, 3) && c.len() > 1 {
+			if rng.chance(1, 4) {
+				// a proper prefix / an extension: arrays of different lengths
+				if rng.chance(1, 2) {
+					c.pop();
+				} else {
+					c.push(g.leaf(rng));
+				}
+			} else if rng.chance(1, 3) && c.len() > 1 {
 				let j = (i + 1) % c.len();
 				c.swap(i, j);
 			} else {
